@@ -1,2 +1,23 @@
-/- C19 — property theorems (to be added); model: -/
-import E57.Model.Writer
+/-
+C19 — copying a file through the library is lossless; writing is deterministic.
+
+`E57/Proofs/Session.lean` (namespace `E57.Session`), built on C01 (`RoundTrip`), C06 (`BlobRoundTrip`), C04
+(`MetaRoundTrip`) and the session invariant of C15 (`Interrupted`):
+
+ * `sess_inv`   over ALL sessions of writer calls (`Sess` = `Interrupt.Reach` annotated with the ghost list of stored
+   items): every finished blob and point cloud occupies a window of the logical stream that is still present,
+   ≥ 48, below the cursor and disjoint from the others; `reach_sess`: every reachable session can be annotated.
+ * `stored_windows_survive`   through the top-level finalize all windows survive and the device is the paged image.
+ * `open_finalized`   `Reader.open` on the finished file succeeds, reports the true header, the root fields, every
+   point cloud's metadata (`PointCloud.stored`), all images and extensions.
+ * `session_roundtrip`   …and every stored blob reads back its bytes and every stored cloud its points, in order,
+   from any healthy reader state (after any other reads).
+ * `copy_idempotent`, `session_reads`   two finished sessions storing the same items read back identically, item by
+   item — whatever the call order, offsets or abandoned sub-writers; `copy_deterministic`: equal states before
+   finalize give equal bytes (immediate in a functional model).
+ * `Reuse.reuse_after_finalize_statement_false` (SessionExample.lean): a point-cloud writer used again after its
+   finalize does not read back — the theorem tracks a cloud until its finalize only.
+Hypotheses: sizes < 2^64, XML ≤ 10 MiB (the reader's limit), the external parser returns the tree of C04's
+obligation C, float text invertible on the values used.
+-/
+import E57.Proofs.Session
